@@ -7,7 +7,11 @@ EmitState == PrintT(ToJson([A |-> A, path |-> path, obs |-> Obs, lit |-> Lit]))
 \* the catalogue, printed once: the adapter builds real components / blocks from it
 ASSUME PrintT(ToJson([CT |-> CT, BT |-> BT]))
 
-D(types, hs, hd) == [types |-> types, hs |-> hs, hd |-> hd]
+\* D: fluid-only DUMMY block on top, detailed changer;  NoDet: the same with the default (non-detailed) changer;
+\* TopD(types, hs, top, hd, det): an ordinary block of type `top` (height hd) on top
+D(types, hs, hd) == [types |-> types, hs |-> hs, hd |-> hd, top |-> "", det |-> TRUE]
+NoDet(types, hs, hd) == [types |-> types, hs |-> hs, hd |-> hd, top |-> "", det |-> FALSE]
+TopD(types, hs, top, hd, det) == [types |-> types, hs |-> hs, hd |-> hd, top |-> top, det |-> det]
 \* growth sets (closed under inverse)
 G3  == {<<5, 6>>, <<1, 1>>, <<6, 5>>}
 G5  == {<<5, 6>>, <<10, 11>>, <<1, 1>>, <<11, 10>>, <<6, 5>>}
@@ -16,23 +20,33 @@ G2x == {<<1, 2>>, <<1, 1>>, <<2, 1>>}                       \* dyadic: the real 
 \* quick exhaustive: the standard column (shield / fuel / plenum), fuel over fuel, cross links, an unlinked pin, a tight dummy
 DesignsQuick == {
     D(<<"fuel", "plenum">>, <<5, 4>>, 3),
-    D(<<"shield", "fuel">>, <<4, 5>>, 3),
+    NoDet(<<"shield", "fuel">>, <<4, 5>>, 3),
     D(<<"fuelb", "bigfuel">>, <<5, 5>>, 2),
-    D(<<"fuel", "afuel">>, <<5, 3>>, 4),
-    D(<<"fuel">>, <<10>>, 2) }
+    NoDet(<<"fuel", "afuel">>, <<5, 3>>, 4),
+    D(<<"fuel">>, <<10>>, 2),
+    TopD(<<"shield", "fuel">>, <<4, 5>>, "plenum", 3, FALSE),        \* no dummy: the plenum on top is chopped
+    TopD(<<"fuel">>, <<5>>, "fuel", 4, FALSE),
+    TopD(<<"fuel">>, <<5>>, "plenum", 4, TRUE) }                      \* no dummy + detailed: every call refused
 DesignsThorough == DesignsQuick \cup {
     D(<<"shield", "fuel", "plenum">>, <<3, 5, 4>>, 4),
     D(<<"fueld", "fueld">>, <<5, 4>>, 3),
     D(<<"fuel", "fuel">>, <<10, 3>>, 5),
     D(<<"control", "plenumd">>, <<4, 4>>, 3),
-    D(<<"fuel", "aclp">>, <<5, 3>>, 3) }
+    D(<<"fuel", "aclp">>, <<5, 3>>, 3),
+    NoDet(<<"fuel", "plenum">>, <<5, 4>>, 3),
+    TopD(<<"fuel", "fuel">>, <<5, 4>>, "shield", 3, FALSE),
+    TopD(<<"fuelb">>, <<6>>, "bigfuel", 4, FALSE) }
 DesignsEmit == {
     D(<<"fuel", "plenum">>, <<5, 4>>, 3),
-    D(<<"fuelb", "bigfuel">>, <<5, 5>>, 2) }
-DesignsDeep == { D(<<"fuel", "plenum">>, <<4, 4>>, 16) }
+    NoDet(<<"fuelb", "bigfuel">>, <<5, 5>>, 2),
+    TopD(<<"fuel">>, <<5>>, "plenum", 4, FALSE),
+    TopD(<<"fuel">>, <<5>>, "plenum", 4, TRUE) }
+DesignsDeep == { NoDet(<<"fuel", "plenum">>, <<4, 4>>, 16), TopD(<<"fuel">>, <<4>>, "plenum", 8, FALSE) }
 \* static cases: target-component choice and link detection over many block designs (one call each)
-DesignsCases == {D(<<t1, t2>>, <<4, 4>>, 4) : t1, t2 \in DOMAIN BT} \cup {D(<<t>>, <<4>>, 4) : t \in DOMAIN BT}
-DesignsCasesQuick == {D(<<t1, t2>>, <<4, 4>>, 4) : t1 \in {"fuel", "shield", "liner", "wires"}, t2 \in DOMAIN BT} \cup {D(<<t>>, <<4>>, 4) : t \in DOMAIN BT}
+TopCases(S) == {TopD(<<t1>>, <<4>>, t2, 4, det) : t1 \in {"fuel", "shield"}, t2 \in S, det \in BOOLEAN}
+DesignsCases == {D(<<t1, t2>>, <<4, 4>>, 4) : t1, t2 \in DOMAIN BT} \cup {NoDet(<<t>>, <<4>>, 4) : t \in DOMAIN BT} \cup TopCases(DOMAIN BT)
+DesignsCasesQuick == {D(<<t1, t2>>, <<4, 4>>, 4) : t1 \in {"fuel", "shield", "liner", "wires"}, t2 \in DOMAIN BT}
+                     \cup {NoDet(<<t>>, <<4>>, 4) : t \in DOMAIN BT} \cup TopCases({"plenum", "fuel", "afuel", "liner", "nofuel"})
 TriplesQuick == {<<0, 1, 2>>, <<2, 0, 1>>}
 TriplesThorough == {<<0, 1, 2>>, <<2, 0, 1>>, <<1, 1, 0>>, <<2, 1, 0>>}
 TriplesEmit == {<<0, 1, 2>>}
@@ -41,6 +55,6 @@ NoTriples == {}
 FromBoth == BOOLEAN
 FromRef == {FALSE}
 GOne == {<<1, 1>>}
-DesignsLit == { D(<<"fuel", "plenum">>, <<5, 4>>, 3), D(<<"fuelb", "bigfuel">>, <<5, 5>>, 2) }
-DesignsEmitThorough == DesignsEmit \cup { D(<<"shield", "fuel">>, <<4, 5>>, 3) }
+DesignsLit == { D(<<"fuel", "plenum">>, <<5, 4>>, 3), NoDet(<<"fuelb", "bigfuel">>, <<5, 5>>, 2) }
+DesignsEmitThorough == DesignsEmit \cup { NoDet(<<"shield", "fuel">>, <<4, 5>>, 3), TopD(<<"shield", "fuel">>, <<4, 5>>, "plenum", 3, FALSE) }
 =====================================================================================================
